@@ -389,4 +389,144 @@ Definition terminals (v : cfg_view) (base enc : pstr) (skip : bool) (g0 : list (
   then_load (single_file k_W (pj [base; n_Websites; n_website_hosts]) enc (fun x => x) g) (fun g =>
   XDone (VDict g, VBool true))))))))))).
 
+
+(* _load_config(ruleset_info, base_directory, config): what its two `except` clauses do with an exception *)
+Definition config_fail (e : xexn) (ri : list (val * val)) (cfg : val) : xres (val * val * val) :=
+  if x_isa (XC CIOError) e then XDone (VDict ri, cfg, VBool false)
+  else if x_isa CConfigError e then XDone (VDict ri, cfg, VBool false)
+  else XFail e.
+
+(* (ruleset_info, config, True / False); [ver] = ruleset_info['version'] *)
+Definition load_config_model (ri : list (val * val)) (base ver : pstr) : xres (val * val * val) :=
+  match cp_read_file (w_cfg W) (w_path_join W [base; n_config_ini]) with
+  | XFail e => config_fail e ri VCfgNew
+  | XDone c =>
+      match cp_get (w_cfg W) c k_program_details k_version with
+      | XFail e => config_fail e ri (VCfg c)
+      | XDone rv =>
+          let ri1 := dput (VStr k_rule_version) (VStr rv) ri in
+          (* only the major versions are compared, as strings *)
+          if str_ltb (stem rv) (stem ver) then XDone (VDict ri1, VCfg c, VBool false)
+          else
+            match cp_get (w_cfg W) c k_dataset_details k_encoding with
+            | XFail e => config_fail e ri1 (VCfg c)
+            | XDone enc =>
+                let ri2 := dput (VStr k_encoding) (VStr enc) ri1 in
+                match cp_get (w_cfg W) c k_dataset_details k_uuid with
+                | XFail e => config_fail e ri2 (VCfg c)
+                | XDone u => XDone (VDict (dput (VStr k_uuid) (VStr u) ri2), VCfg c, VBool true)
+                end
+            end
+      end
+  end.
+
+(* load_grammar(rule_name, base_directory, version, skip_brute, skip_case, base_structure_folder): the
+   three loads in this order, `raise Exception` as soon as one returns False, the result is the
+   tuple (grammar, base_structures, ruleset_info).  [lc], [lt] are _load_config and _load_terminals
+   (the translated functions, which the theorems above show equal to load_config_model / terminals) *)
+Definition load_grammar_seq
+           (lc : val -> val -> val -> xres (val * val * val))
+           (lt : val -> val -> val -> val -> val -> xres (val * val))
+           (rn base ver sb sc folder : val) : xres val :=
+  xthen (lc (VDict [(VStr k_rule_name, rn); (VStr k_version, ver)]) base VCfgNew) (fun r1 =>
+  xthen (dy_truth (snd r1)) (fun b1 => if negb b1 then XFail XPlain else
+  xthen (lt (fst (fst r1)) (VDict []) base (snd (fst r1)) sc) (fun r2 =>
+  xthen (dy_truth (snd r2)) (fun b2 => if negb b2 then XFail XPlain else
+  xthen (call_load_base_structures (w_load_base_structures W) (VList []) base sb folder) (fun r3 =>
+  xthen (dy_truth (snd r3)) (fun b3 => if negb b3 then XFail XPlain else
+  XDone (VTuple [fst r2; fst r3; fst (fst r1)]))))))).
+
 End GuesserGrammar.
+
+(* ---------------------------------------------------------------- 4. the scorer's grammar *)
+
+Definition a_encoding : pstr := k_encoding.
+Definition a_count_years : pstr := [99; 111; 117; 110; 116; 95; 121; 101; 97; 114; 115]%N.
+Definition a_count_context_sensitive : pstr :=
+  [99; 111; 117; 110; 116; 95; 99; 111; 110; 116; 101; 120; 116; 95; 115; 101; 110; 115; 105; 116; 105; 118; 101]%N.
+Definition a_count_base_structures : pstr :=
+  [99; 111; 117; 110; 116; 95; 98; 97; 115; 101; 95; 115; 116; 114; 117; 99; 116; 117; 114; 101; 115]%N.
+Definition a_count_keyboard : pstr := [99; 111; 117; 110; 116; 95; 107; 101; 121; 98; 111; 97; 114; 100]%N.
+Definition a_count_alpha : pstr := [99; 111; 117; 110; 116; 95; 97; 108; 112; 104; 97]%N.
+Definition a_count_alpha_masks : pstr := [99; 111; 117; 110; 116; 95; 97; 108; 112; 104; 97; 95; 109; 97; 115; 107; 115]%N.
+Definition a_count_digits : pstr := [99; 111; 117; 110; 116; 95; 100; 105; 103; 105; 116; 115]%N.
+Definition a_count_other : pstr := [99; 111; 117; 110; 116; 95; 111; 116; 104; 101; 114]%N.
+
+Section ScorerGrammar.
+Context (fo : fops) {C S : Type} (W : world fo C S).
+Notation val := (pyval (F fo) C S).
+
+(* one file of a section: counter[int(stem)] = Counter() filled by the translated _load_from_file *)
+Definition smulti_step (base dir enc : pstr) (file : pstr) (gc : list (val * val))
+  : list (val * val) + xres (val * val) :=
+  match w_pint W (stem file) with
+  | None => inr (XFail (XBase EValue))
+  | Some n =>
+      match w_scorer_load_from_file W [] (w_path_join W [base; dir; file]) enc with
+      | Done (d, true) => inl (dput (VInt n) (val_of_counter d) gc)
+      | Done (d, false) => inr (XDone (VDict (dput (VInt n) (val_of_counter d) gc), VBool false))
+      | Fail e => inr (XFail (XBase e))
+      end
+  end.
+
+Fixpoint smulti_files (base dir enc : pstr) (files : list pstr) (gc : list (val * val)) : xres (val * val) :=
+  match files with
+  | [] => XDone (VDict gc, VBool true)
+  | f :: r => match smulti_step base dir enc f gc with
+              | inl gc' => smulti_files base dir enc r gc'
+              | inr v => v
+              end
+  end.
+
+
+(* load_grammar(grammar, rule_directory) of the scorer: what its two `except` clauses do *)
+Definition sfail (e : xexn) (obj : val) : xres (val * val) :=
+  if x_isa (XC CIOError) e then XDone (obj, VBool false)
+  else if x_isa CConfigError e then XDone (obj, VBool false)
+  else XFail e.
+
+(* attribute <- Counter filled from one file (the attribute holds an empty Counter before) *)
+Definition sfile_load (base folder file enc attr : pstr) (a : list (pstr * val))
+           (k : list (pstr * val) -> xres (val * val)) : xres (val * val) :=
+  match w_scorer_load_from_file W [] (w_path_join W [base; folder; file]) enc with
+  | Fail e => sfail (XBase e) (VObj a)
+  | Done (d, b) => if b then k (aput attr (val_of_counter d) a)
+                   else XDone (VObj (aput attr (val_of_counter d) a), VBool false)
+  end.
+
+(* attribute <- {length: Counter} filled from the files of a section (the attribute holds {} before) *)
+Definition smulti_load (base enc attr : pstr) (df : pstr * list pstr) (a : list (pstr * val))
+           (k : list (pstr * val) -> xres (val * val)) : xres (val * val) :=
+  match smulti_files base (fst df) enc (snd df) [] with
+  | XFail e => sfail e (VObj a)
+  | XDone (gc', VBool true) => k (aput attr gc' a)
+  | XDone (gc', _) => XDone (VObj (aput attr gc' a), VBool false)
+  end.
+
+(* the directory and the file names of the five sections the scorer reads *)
+Record sviews := { sv_K : pstr * list pstr; sv_A : pstr * list pstr; sv_CAP : pstr * list pstr;
+                   sv_D : pstr * list pstr; sv_O : pstr * list pstr }.
+
+(* load_grammar(grammar, rule_directory) for an object [a] whose count_* attributes are still empty: the
+   eight loads in order - Years/1.txt, Context/1.txt with the ruleset encoding, Grammar/grammar.txt always
+   as ASCII, then the sections BASE_K, BASE_A, CAPITALIZATION, BASE_D, BASE_O *)
+Definition scorer_grammar_model (v : sviews) (a : list (pstr * val)) (base : pstr) : xres (val * val) :=
+  match cp_read_file (w_cfg W) (w_path_join W [base; n_config_ini]) with
+  | XFail e => sfail e (VObj a)
+  | XDone c =>
+      match cp_get (w_cfg W) c k_dataset_details k_encoding with
+      | XFail e => sfail e (VObj a)
+      | XDone enc =>
+          sfile_load base n_Years n_1_txt enc a_count_years (aput a_encoding (VStr enc) a) (fun a =>
+          sfile_load base n_Context n_1_txt enc a_count_context_sensitive a (fun a =>
+          sfile_load base n_Grammar n_grammar_txt k_ascii a_count_base_structures a (fun a =>
+          smulti_load base enc a_count_keyboard (sv_K v) a (fun a =>
+          smulti_load base enc a_count_alpha (sv_A v) a (fun a =>
+          smulti_load base enc a_count_alpha_masks (sv_CAP v) a (fun a =>
+          smulti_load base enc a_count_digits (sv_D v) a (fun a =>
+          smulti_load base enc a_count_other (sv_O v) a (fun a =>
+          XDone (VObj a, VBool true)))))))))
+      end
+  end.
+
+End ScorerGrammar.
